@@ -109,7 +109,7 @@ SCALE = {
     "C05": "used-token table filled with 2047-2100 older tokens, and with 2047-4200 retransmissions of one request, before the token under test is presented from a second address",
     "C06": "31-80 partially reassembled unreliable messages at once",
     "C08": "the quick ack world keeps two ack packets outstanding; a 66 000-slice (79 MB) message with three packets lost once",
-    "C09": "single reliable messages up to the 5 MiB default budget (known finding F18 reproduced there); 1250-2500 packets in flight before the first ack (4 ticks of latency); 60 ticks of exact tick-budget saturation against a reliable stream in the other direction",
+    "C09": "single reliable messages up to the 5 MiB default budget (found defect F18, repaired in 4436e16); 1250-2500 packets in flight before the first ack (4 ticks of latency); 60 ticks of exact tick-budget saturation against a reliable stream in the other direction",
     "C10": "servers with max_clients 255/256/257/1024 (thorough: 12 sizes) filled by real clients: refusal of one more, payload routing both ways for every client, keep-alive rounds, kick and replace, one time-out",
     "C11": "crowds of 2-300 (thorough: 2000) clients: broadcast, broadcast_except, unicast, sliced broadcast, every client sends; one kicked, one link dead",
     "C12": "2-1000 clients connecting and disconnecting between two event drains",
